@@ -90,6 +90,18 @@ PolySteps ==
     \cup {Step("apply_pre", [f |-> f]) : f \in Affs22}
     \cup {Step("apply_post", [m |-> u[1], minv |-> u[2], c |-> c]) : u \in Unimod, c \in {<<0, 0>>, <<1, -2>>}}
     \cup {Step("rotate", [r |-> r]) : r \in Orth2}
+\* dimension 3
+Vecs3 == {<<1, 0, -2>>}
+Affs33 == {A(<<<<0, 1, 0>>, <<0, 0, 1>>, <<1, 0, 0>>>>, <<1, -2, 0>>, 3), A(<<<<1, 1, 0>>, <<0, 2, 0>>, <<0, 0, -1>>>>, <<0, 0, 1>>, 3)}
+Unimod3 == {<<<<<<1, 1, 0>>, <<0, 1, 0>>, <<0, 0, 1>>>>, <<<<1, -1, 0>>, <<0, 1, 0>>, <<0, 0, 1>>>>>>,
+            <<<<<<0, 0, 1>>, <<1, 0, 0>>, <<0, 1, 0>>>>, <<<<0, 1, 0>>, <<0, 0, 1>>, <<1, 0, 0>>>>>>}
+Orth3 == {<<<<0, -1, 0>>, <<1, 0, 0>>, <<0, 0, 1>>>>, <<<<0, 0, 1>>, <<1, 0, 0>>, <<0, 1, 0>>>>}
+PolySteps3 ==
+    {Step("translate", [d |-> v, q |-> 1]) : v \in Vecs3}
+    \cup {Step("intersection", [p2 |-> A(<<<<1, 1, 1>>>>, <<1>>, 3)])}
+    \cup {Step("apply_pre", [f |-> f]) : f \in Affs33}
+    \cup {Step("apply_post", [m |-> u[1], minv |-> u[2], c |-> c]) : u \in Unimod3, c \in {<<0, 0, 0>>, <<1, -2, 3>>}}
+    \cup {Step("rotate", [r |-> r]) : r \in Orth3}
 \* L1 result of a step
 Do(p, s) ==
     CASE s.op = "translate" -> Translate(p, s.d, s.q)
@@ -124,7 +136,10 @@ F12 == {A(<<<<1, -1>>>>, <<2>>, 2), A(<<<<0, 0>>>>, <<0>>, 2)}
 F21 == {A(<<<<1>>, <<-2>>>>, <<0, 1>>, 1)}
 F32 == {A(<<<<1, 0>>, <<0, 0>>, <<0, 2>>>>, <<0, 0, 1>>, 2), A(<<<<0, 0>>, <<0, 0>>, <<0, 0>>>>, <<1, 0, 0>>, 2)}
 Z22 == A(<<<<0, 3>>, <<0, -1>>>>, <<1, 1>>, 2)
-AllF == F22 \cup F12 \cup F21 \cup F32 \cup {Z22}
+F23 == {A(<<<<1, 0, -1>>, <<2, 1, 0>>>>, <<0, 1>>, 3)}
+F33 == {A(<<<<1, 2, 0>>, <<0, 1, -1>>, <<3, 0, 1>>>>, <<1, 0, -1>>, 3)}
+F11 == {A(<<<<-3>>>>, <<2>>, 1)}
+AllF == F22 \cup F12 \cup F21 \cup F32 \cup {Z22} \cup F23 \cup F33 \cup F11
 \* dividend / divisor pairs with exact quotients and no zero divisor entries
 DivPairs == {<<A(<<<<4, -6>>, <<2, 8>>>>, <<6, -4>>, 2), A(<<<<2, 3>>, <<-1, 4>>>>, <<3, -2>>, 2)>>,
              <<A(<<<<7, -5>>, <<3, 8>>>>, <<6, -7>>, 2), A(<<<<2, 3>>, <<-2, 3>>>>, <<4, -2>>, 2)>>}
@@ -173,6 +188,14 @@ LPolys == UNION {{PolyOfRows(<<r>>) : r \in LRows}, {PolyOfRows(<<r, s>>) : r \i
                  IF NP >= 3 THEN {PolyOfRows(<<r, s, u>>) : r \in LRowsS, s \in LRowsS, u \in LRowsS} ELSE {},
                  IF NP >= 4 THEN {PolyOfRows(<<r, s, u, v>>) : r \in LRowsS, s \in LRowsS, u \in LRowsS, v \in {<<<<1, 0>>, 1>>, <<<<-1, -1>>, 1>>, <<<<0, 1>>, 1>>}} ELSE {}}
 Objs == {<<0, 0>>, <<1, 0>>, <<0, 1>>, <<1, 1>>, <<-1, 1>>}
+PolyOfRowsD(rs, d) == A([i \in 1..Len(rs) |-> rs[i][1]], [i \in 1..Len(rs) |-> rs[i][2]], d)
+LRows1 == {<<<<a>>, c>> : a \in {-1, 0, 1}, c \in {-1, 0, 1}}
+LPolys1 == {PolyOfRowsD(<<r>>, 1) : r \in LRows1} \cup {PolyOfRowsD(<<r, s>>, 1) : r \in LRows1, s \in LRows1}
+Objs1 == {<<0>>, <<1>>, <<-1>>}
+LRows3 == {<<<<1, 0, 0>>, 1>>, <<<<-1, 0, 0>>, 0>>, <<<<0, 1, 0>>, 1>>, <<<<0, -1, 0>>, 1>>, <<<<0, 0, 1>>, 0>>, <<<<1, 1, 1>>, -1>>, <<<<-1, -1, -1>>, 1>>, <<<<0, 0, 0>>, -1>>, <<<<0, 0, -1>>, 0>>}
+LPolys3 == {PolyOfRowsD(<<r>>, 3) : r \in LRows3} \cup {PolyOfRowsD(<<r, s>>, 3) : r \in LRows3, s \in LRows3}
+           \cup {PolyOfRowsD(<<<<<<1, 0, 0>>, 1>>, <<<<-1, 0, 0>>, 0>>, <<<<0, 1, 0>>, 1>>, <<<<0, -1, 0>>, 1>>, <<<<0, 0, 1>>, 0>>, <<<<0, 0, -1>>, 0>>>>, 3)}
+Objs3 == {<<0, 0, 0>>, <<1, 0, 0>>, <<1, 1, 1>>, <<0, -1, 1>>}
 
 \* ---------------------------------------------------------------- mirror_points (C05)
 MPolys == {PolyOfRows(<<r>>) : r \in LRowsS} \cup {PolyOfRows(<<r, s>>) : r \in LRowsS, s \in LRowsS}
@@ -187,9 +210,10 @@ Start == \E c \in Ctors :
     /\ reg' = Build(c) /\ prev' = None /\ last' = c /\ hist' = [ctor |-> c, pipe |-> <<>>]
     /\ stage' = "p0"
 DepthOf == CASE stage = "p0" -> 0 [] stage = "p1" -> 1 [] stage = "p2" -> 2 [] OTHER -> 99
-PolyStep == \E s \in PolySteps :
-    /\ MODE = "poly" /\ DepthOf < NP /\ reg.n = 2
-    /\ hist.ctor.ctor \in {"rows", "hypercube", "axis_bounds", "from_normal", "cross_polytope"}
+PolyStep == \E s \in PolySteps \cup PolySteps3 :
+    /\ MODE = "poly" /\ DepthOf < NP /\ reg.n \in {2, 3}
+    /\ (s \in PolySteps3) = (reg.n = 3) /\ (reg.n = 3 => DepthOf = 0)
+    /\ hist.ctor.ctor \in {"rows", "hypercube", "axis_bounds", "from_normal", "cross_polytope", "simplex"}
     /\ prev' = reg /\ reg' = Do(reg, s) /\ last' = s
     /\ hist' = [hist EXCEPT !.pipe = Append(hist.pipe, s)]
     /\ stage' = IF DepthOf = 0 THEN "p1" ELSE IF DepthOf = 1 THEN "p2" ELSE "p3"
@@ -205,7 +229,8 @@ CleanStart == \E p \in CPolys \cup CExtra, o \in CleanOps, rs \in {<<0>>, <<1>>,
 AffStart == \E o \in AffOps :
     /\ stage = "init" /\ MODE = "aff" /\ ValidAffOp(o)
     /\ reg' = None /\ prev' = None /\ last' = o /\ hist' = o /\ stage' = "a1"
-LpStart == \E p \in LPolys, c \in Objs :
+LpStart == \E pc \in (LPolys \X Objs) \cup (LPolys1 \X Objs1) \cup (LPolys3 \X Objs3) :
+    LET p == pc[1]  c == pc[2] IN
     /\ stage = "init" /\ MODE = "lp"
     /\ reg' = p /\ prev' = None /\ last' = c /\ hist' = [p |-> p, c |-> c] /\ stage' = "l1"
 MirrorStart == \E p \in MPolys, s \in MStarts, it \in {1, 8, 20} :
@@ -222,6 +247,7 @@ CtorOK == stage = "p0" =>
 StepsOK == stage \in {"p1", "p2", "p3"} => StepOK(prev, last, reg)
 \* C16: algebraic identities of the L1 definitions on a grid
 AffGrid == VecsOver(-2..2, 2)
+AffGridD(d) == VecsOver(-1..1, d)
 ComposeLaw == (stage = "a1" /\ last.op = "compose" /\ last.g.n = 2) =>
     \A x \in AffGrid : Apply(Compose(last.f, last.g), x, 1) = Apply(last.f, Apply(last.g, x, 1), 1)
 AddLaw == (stage = "a1" /\ last.op \in {"add", "sub"} ) =>
